@@ -58,6 +58,45 @@ partial def selOfJson : Json → Option Sel
     | _ => none
   | _ => none
 
+/-- a bound of a value range `lo:hi:'col'`: absent, an integer, or a float — a JSON number with a fraction (kept as the
+    token `<mantissa>e-<digits>`, which `TableM.parseNum` reads back exactly) or `{"f": "<repr>"}` (`nan`, `inf`, `-inf`);
+    `none` for a string (a name span, not a value range) -/
+def rangeBoundOfJson : Json → Option (Option Cell)
+  | .null => some none
+  | .num n => if n.exponent = 0 then some (some (.int n.mantissa))
+              else some (some (.flt (toString n.mantissa ++ "e-" ++ toString n.exponent)))
+  | .obj kvs => match kvs.toList with
+    | [("f", .str tok)] => some (some (.flt tok))
+    | _ => none
+  | _ => none
+
+def isIntBound : Option Cell → Bool
+  | none => true
+  | some (.int _) => true
+  | _ => false
+
+/-- every cell of the column is an integer (an unknown column: left to the selector, a `KeyError`) -/
+def intColumn (t : Tbl) (c : String) : Bool :=
+  match t.col c with
+  | some col => col.all (fun x => match x with | .int _ => true | _ => false)
+  | none => true
+
+/-- selectors read against the table they will be applied to: a value range whose column or bounds are not all integers
+    is the general selector `Sel.range` (`valueRangeF`, XModel/TableRangeF.lean); integer bounds on an integer column stay
+    the slice selector (`valueRange`) — the two agree there (`TableM.getRowIndices_slice_eq_range`).  Inside a tuple the
+    later selectors meet a view of the same columns, so the kind of a column is that of the table's -/
+partial def selOfJsonT (t : Tbl) (j : Json) : Option Sel :=
+  match j with
+  | .arr a => (match a.toList with
+    | [.str "slice", x, y, .str c] =>
+      (match rangeBoundOfJson x, rangeBoundOfJson y with
+       | some lo, some hi =>
+         if isIntBound lo && isIntBound hi && intColumn t c then selOfJson j else some (.range lo hi c)
+       | _, _ => selOfJson j)
+    | [.str "tuple", .arr l] => (l.toList.mapM (selOfJsonT t)).map Sel.tuple
+    | _ => selOfJson j)
+  | _ => selOfJson j
+
 /-- the regex oracle: `match[selector][rowname]`, false when absent -/
 def matchOf (j : Json) : String → Match := fun sel name =>
   match field j "match" with
@@ -195,19 +234,19 @@ def step (t : Tbl) (j : Json) : Tbl × Json :=
       out t (excJson x) (match x with | .ok v => .arr (v.map cellToJson).toArray | .error _ => .null)
     | none => bad t "colexpr"
   | some "indices" =>
-    match (field j "sel").bind selOfJson with
+    match (field j "sel").bind (selOfJsonT t) with
     | some s =>
       let (t1, x) := indicesOf t (matchOf j) s
       out t1 (excJson x) (match x with | .ok l => intsJson l | .error _ => .null)
     | none => bad t "indices sel"
   | some "mask" =>
-    match (field j "sel").bind selOfJson with
+    match (field j "sel").bind (selOfJsonT t) with
     | some s =>
       let (t1, x) := maskOf t (matchOf j) s
       out t1 (excJson x) (match x with | .ok l => .arr (l.map Json.bool).toArray | .error _ => .null)
     | none => bad t "mask sel"
   | some "rows" =>
-    match (field j "sel").bind selOfJson with
+    match (field j "sel").bind (selOfJsonT t) with
     | some s =>
       let (t1, x) := rowsOf t (matchOf j) s
       out t1 (excJson x) (match x with
@@ -226,7 +265,7 @@ def step (t : Tbl) (j : Json) : Tbl × Json :=
           | .arr a =>
             (match a.toList with
              | [.str "rows", sj] =>
-               (match selOfJson sj with
+               (match selOfJsonT cur sj with
                 | some sel => (match (rowsOf cur (matchOf j) sel).2 with
                   | .ok r => go r rest
                   | .error e => .ok (.error e))
